@@ -180,8 +180,17 @@ pub fn check_case(c: &Case, st: &mut Stats) -> PResult {
     // the position of the *last* chunk; then order inside one token group is by first arrival
     let got = norm(&evs).map_err(|e| Failure::new(format!("C05: text chunk protocol: {e}")))?;
     let got: Vec<Ev> = got.into_iter().filter(|e| !matches!(e, Ev::Text { text, loc, .. } if text.is_empty() && loc.0 == loc.1)).collect();
-    let got = group(got);
-    let exp = expected(c, &tree);
+    // is_self_closing() read by a later handler legitimately changes once an earlier handler on
+    // the same element gave it content (set_inner_content on `<x/>` drops the decorative `/`):
+    // the flag's value is C16's subject, dispatch is this property's
+    let unflag = |v: Vec<Vec<Ev>>| -> Vec<Vec<Ev>> {
+        v.into_iter()
+            .map(|g| g.into_iter().map(|e| match e { Ev::Element { h, name, name_pc, attrs, ns, can_have_content, loc, .. } => Ev::Element { h, name, name_pc, attrs, ns, self_closing: false, can_have_content, loc }, o => o }).collect())
+            .collect()
+    };
+    let mutating = c.remover.is_some();
+    let got = if mutating { unflag(group(got)) } else { group(got) };
+    let exp = if mutating { unflag(expected(c, &tree)) } else { expected(c, &tree) };
     let ctx = || format!("selectors={:?} docs={:?} doc={:?}", cfg.sels.iter().map(|s| format!("{} {}{}{}{}", s.sel, if s.el { "E" } else { "" }, if s.end_tag { "/" } else { "" }, if s.text { "T" } else { "" }, if s.comments { "C" } else { "" })).collect::<Vec<_>>(), c.docs, show(&c.d.bytes));
     for (k, (g, e)) in got.iter().zip(exp.iter()).enumerate() {
         let is_end = matches!(e[0], Ev::EndTag { .. });
